@@ -111,6 +111,12 @@ Proof. vm_compute. reflexivity. Qed.
 Example C12_ex_illegal_character_line_2 :
   parse_source (fun _ => None) (default_crank []) (zs "[" ++ [10%Z] ++ zs "    1 $" ++ [10%Z] ++ zs "](List)") = PSyntax (mkTok TError [36%Z] 2 7).
 Proof. vm_compute. reflexivity. Qed.
+Example C12_ex_strict_hypothesis_satisfiable :
+  (forall a b : val, (fun _ _ => Some Eq) a b <> None) /\
+  is_value (parse_source (fun _ => None) (fun _ _ => Some Eq) (zs "[3, 1, 2](Set)")) = true.
+Proof. split; [intros a b; discriminate|vm_compute; reflexivity]. Qed.
+Example C12_ex_lexed_streams_have_eof : has_eof (lex (zs "[bad")).
+Proof. exact (lex_has_eof (zs "[bad")). Qed.
 Example C12_ex_deepest_pushback :
   parse_source (fun _ => None) (default_crank []) (zs "[" ++ [10%Z] ++ zs "1 2") = PSyntax (mkTok TInteger [50%Z] 2 3).
 Proof. vm_compute. reflexivity. Qed.
